@@ -4,6 +4,7 @@ CONSTANTS
   TestBit = "tc"
   MaxTcp = 4
   MaxUdp = 12
+  GiveUpResult = "err"
   Export = FALSE
 CONSTRAINT HWM
 POSTCONDITION Accepted
